@@ -1,14 +1,15 @@
 #!/bin/bash
 # neutralrun.sh [ids...]: applies every behaviour-preserving variant under /verif/selftest/neutral to /repo, runs the checks
 # (all must stay silent), and reverts. A VIOLATION here is a false alarm of the machinery.
-ids=${@:-$(/verif/bin/verifsa list | cut -d' ' -f1)}
+export VBIN=$(mktemp /tmp/verifsa-frozen.XXXX); cp /verif/bin/verifsa $VBIN; chmod +x $VBIN; trap 'rm -f $VBIN' EXIT  # a frozen copy: the binary may be rebuilt while this runs
+ids=${@:-$($VBIN list | cut -d' ' -f1)}
 [ -z "$(git -C /repo status --porcelain)" ] || { echo "/repo is dirty"; exit 2; }
 mkdir -p /tmp/verif-seedrun; cp /verif/known_findings.json /tmp/verif-seedrun/
 rc=0
 for p in ${NEUTRAL_DIR:-/verif/selftest/neutral}/*.diff; do
   git -C /repo apply $p || { echo "cannot apply $p"; rc=2; continue; }
   (cd /repo && GOFLAGS=-mod=mod GOPROXY=off GOSUMDB=off GOTOOLCHAIN=local go build ./... ) || { echo "$p does not build"; rc=2; }
-  bad=$(echo $ids | tr ' ' '\n' | xargs -P 10 -I{} sh -c 'out=$(/verif/bin/verifsa check {} -root /tmp/verif-seedrun 2>&1); if echo "$out" | grep -q "^VIOLATION"; then echo "$out" | grep -B1 "^VIOLATION" | grep -v "^VIOLATION\|^--" | cut -c1-300 | sed "s/^/   [{}] /" | head -3 >&2; echo {}; fi' | sort | tr '\n' ' ')
+  bad=$(echo $ids | tr ' ' '\n' | xargs -P 10 -I{} sh -c 'out=$($VBIN check {} -root /tmp/verif-seedrun 2>&1); if echo "$out" | grep -q "^VIOLATION"; then echo "$out" | grep -B1 "^VIOLATION" | grep -v "^VIOLATION\|^--" | cut -c1-300 | sed "s/^/   [{}] /" | head -3 >&2; echo {}; fi' | sort | tr '\n' ' ')
   bad=${bad:+ $bad}
   git -C /repo checkout -- . ; git -C /repo clean -fdq
   echo "NEUTRAL $(basename $p): ${bad:+FALSE ALARM in$bad}${bad:-silent}"
